@@ -105,16 +105,6 @@ def _run_mutant(args):
         shutil.rmtree(root, ignore_errors=True)
 
 
-class _SwapEq(ast.NodeTransformer):
-    """Behaviour-preserving rewrite: swap the operands of every two-operand == / != comparison."""
-
-    def visit_Compare(self, n):
-        self.generic_visit(n)
-        if len(n.ops) == 1 and isinstance(n.ops[0], (ast.Eq, ast.NotEq)):
-            n.left, n.comparators = n.comparators[0], [n.left]
-        return n
-
-
 def _run_normalised(args):
     prop, repo_root, scratch = args[:3]
     variant = args[3] if len(args) > 3 else "unparse"
@@ -127,8 +117,11 @@ def _run_normalised(args):
             if rel.startswith("osaca/data/"):
                 continue
             tree = ast.parse(p.read_text())
-            if variant == "eqswap":
-                tree = _SwapEq().visit(tree)
+            if variant != "unparse":
+                from .rewrites import TRANSFORMS
+
+                tree = TRANSFORMS[variant]().visit(tree)
+                ast.fix_missing_locations(tree)
             replace[rel] = ast.unparse(tree) + "\n"
         _link_tree(repo_root, root, replace)
         try:
@@ -152,10 +145,12 @@ def run(prop, ctx):
         jobs = [(prop, repo_root, scratch, dict(id=m.id, file=m.file, old=m.old, new=m.new, first=m.first, tier=m.tier)) for m in muts]
         with ProcessPoolExecutor(max_workers=min(16, max(1, len(jobs) + 1))) as ex:
             norm_future = ex.submit(_run_normalised, (prop, repo_root, scratch))
-            swap_future = ex.submit(_run_normalised, (prop, repo_root, scratch, "eqswap"))
+            from .rewrites import SILENT_VARIANTS
+
+            var_futures = {v: ex.submit(_run_normalised, (prop, repo_root, scratch, v)) for v in SILENT_VARIANTS}
             outs = list(ex.map(_run_mutant, jobs))
             norm = norm_future.result()
-            swap = swap_future.result()
+            variants = {v: f.result() for v, f in var_futures.items()}
         by_id = {m.id: m for m in muts}
         missed = []
         for mid, status, payload in outs:
@@ -198,14 +193,17 @@ def run(prop, ctx):
                                     "(formatting-sensitive rule): %s" % (prop, sorted(diff)[:4]))
         else:
             raise AnalysisError("%s self-test: analysis failed on the normalised copy: %s" % (prop, norm[1]))
-        if swap[0] == "ran":
-            results["silent_on_eq_operand_swap"] = sorted(k for _, k in swap[1]) == sorted(base_keys)
-            if not results["silent_on_eq_operand_swap"]:
-                diff = set(k for _, k in swap[1]) ^ base_keys
-                raise AnalysisError("%s self-test: findings differ on the copy with ==/!= operands swapped (operand-order "
-                                    "sensitive rule): %s" % (prop, sorted(diff)[:4]))
-        else:
-            raise AnalysisError("%s self-test: analysis failed on the ==/!= swapped copy: %s" % (prop, swap[1]))
+        results["silent_on_rewrites"] = {}
+        for v, res in variants.items():
+            if res[0] != "ran":
+                raise AnalysisError("%s self-test: analysis failed on the `%s` rewritten copy: %s" % (prop, v, res[1]))
+            same = sorted(k for _, k in res[1]) == sorted(base_keys)
+            results["silent_on_rewrites"][v] = same
+            if not same:
+                diff = set(k for _, k in res[1]) ^ base_keys
+                raise AnalysisError("%s self-test: findings differ on the copy rewritten by `%s` (a behaviour-preserving "
+                                    "whole-package rewrite, see osaca_sa/rewrites.py): %s" % (prop, v, sorted(diff)[:4]))
+        results["silent_on_eq_operand_swap"] = results["silent_on_rewrites"].get("eqswap", False)
         if missed:
             raise AnalysisError("%s self-test: %d mutant(s) not detected: %s" % (prop, len(missed), "; ".join(missed)[:1500]))
         live = results["mutants"] - results["stale"]
